@@ -49,6 +49,7 @@ class C11(Prop):
         mode = MODES[s.draw(4, "mode")]
         end = ENDS[s.weighted((4, 2, 2, 1), "end")]
         n_items = s.draw(5, "items")
+        item_kinds = [s.weighted((4, 2, 1, 1, 1), "item-kind") for _ in range(n_items)]
         steps = []
         for i in range(n_items + 1):
             acts = []
@@ -58,7 +59,11 @@ class C11(Prop):
         gen_raises = profile == "faults" and s.chance(1, 3, "gen-raises")
         cancel_consumer = profile == "faults" and not gen_raises and s.chance(1, 2, "cancel-consumer")
         break_after = s.draw(max(1, n_items), "break-after") if end.startswith("break") else None
-        sim.program = {"mode": mode, "end": end, "items": n_items, "steps": steps, "gen_raises": gen_raises,
+        def item_value(i):
+            # falsy and None items are legitimate elements of a stream
+            return (("item", i), None, 0, False, "")[item_kinds[i]]
+
+        sim.program = {"mode": mode, "end": end, "items": n_items, "item_kinds": item_kinds, "steps": steps, "gen_raises": gen_raises,
                        "cancel_consumer": cancel_consumer, "break_after": break_after}
         if mode != "same-scope" or end in ("break-drop", "never-started") or gen_raises or cancel_consumer:
             sim.nontrivial = True
@@ -155,7 +160,7 @@ class C11(Prop):
                             gen_probe("after nested stream")
                     if i < n_items:
                         sim.event("gen-yield", i)
-                        yield ("item", i)
+                        yield item_value(i)
                 if gen_raises:
                     sim.stats["fault:generator_raise"] += 1
                     raise gen_exc
@@ -199,9 +204,10 @@ class C11(Prop):
                     finally:
                         st["in_fetch"] = False
                     st["received"].append(item)
-                    sim.event("item", item[1])
-                    if item != ("item", k):
-                        sim.fail("R1-items", f"received {item!r} as element {k}")
+                    sim.event("item", k)
+                    want_item = item_value(k) if k < n_items else "<none>"
+                    if item != want_item or type(item) is not type(want_item):
+                        sim.fail("R1-items", f"received {item!r} as element {k}, the generator yielded {want_item!r}")
                     k += 1
                     compare(before, f"between items (after item {k - 1})", "R3-consumer-context-between-items")
                     if break_after is not None and k > break_after:
@@ -293,7 +299,7 @@ class C11(Prop):
         # R1: items and terminal outcome
         kind, obj = st["outcome"] or (None, None)
         if kind == "end":
-            if st["received"] != [("item", i) for i in range(n_items)] or gen_raises:
+            if len(st["received"]) != n_items or gen_raises:
                 sim.report_post("R1-items", f"stream ended normally after {st['received']}, spec has {n_items} items, raises={gen_raises}", **feat())
         elif kind == "raised":
             if not (gen_raises and obj is gen_exc and len(st["received"]) == n_items):
